@@ -10,6 +10,10 @@ def K(b2, b1, b0):
     return b2 * 65536 + b1 * 256 + b0
 
 
+def K4(b3, b2, b1, b0):
+    return b3 * 16777216 + K(b2, b1, b0)
+
+
 def rng(n, b1=0, b2=0):
     return [K(b2, b1, i) for i in range(1, n + 1)]
 
@@ -81,6 +85,19 @@ def point_scenarios(tier):
     add("prefix_split_rem", p2, ["i1"], ["r%d" % K(0, 1, 1)])
     add("prefix_split_ins_below", p2, ["i1"], ["i%d" % K(0, 1, 3)])
     add("prefix_split_then_collapse", p2, ["i1", "r1"], ["g%d" % K(0, 1, 2), "g%d" % K(0, 1, 2)])
+    # --- prefix cut that leaves a NON-empty remainder in the old node (a stale reader then
+    # sees a prefix mismatch, not a missing child), at the root and below a real parent
+    far = K(1, 0, 0)
+    add("prefix_cut_rem", p2, ["i%d" % far], ["r%d" % K(0, 1, 1)])
+    add("prefix_cut_get", p2, ["i%d" % far], ["g%d" % K(0, 1, 1), "g%d" % far])
+    add("prefix_cut_ins_below", p2, ["i%d" % far], ["i%d" % K(0, 1, 3)])
+    add("prefix_cut_rem_rem", p2, ["i%d" % far, "r%d" % far], ["r%d" % K(0, 1, 1), "r%d" % K(0, 1, 2)])
+    x1, x2, xf = K4(1, 0, 1, 1), K4(1, 0, 1, 2), K4(1, 1, 0, 0)
+    p3 = [1, x1, x2]
+    add("prefix_cut_deep_rem", p3, ["i%d" % xf], ["r%d" % x1])
+    add("prefix_cut_deep_get", p3, ["i%d" % xf], ["g%d" % x1, "g%d" % xf])
+    add("prefix_cut_deep_ins_below", p3, ["i%d" % xf], ["i%d" % K4(1, 0, 1, 3)])
+    add("prefix_cut_deep_ins_same", p3, ["i%d" % xf], ["i%d" % x1, "r%d" % x2])
     # --- child grows / shrinks while its parent changes
     t3 = rng(4) + [K(0, 1, 1)]
     add("child_grow_parent_add", t3, ["i5"], ["i%d" % K(0, 2, 1)])
